@@ -314,3 +314,43 @@ func runC10(ctx *core.Ctx) {
 		}
 	}
 }
+
+// doResultTypeOK checks one Cache.Do call site (K7).
+func doResultTypeOK(p *core.Prog, c *ssa.Call) (bool, string) {
+	var asserted types.Type
+	for _, r := range ssax.Referrers(c) {
+		if x, ok := r.(*ssa.TypeAssert); ok && !x.CommaOk {
+			asserted = x.AssertedType
+		}
+	}
+	if asserted == nil {
+		return true, "(not asserted)"
+	}
+	var cb *ssa.Function
+	if mc, ok := c.Call.Args[2].(*ssa.MakeClosure); ok {
+		cb = mc.Fn.(*ssa.Function)
+	} else if fn, ok := c.Call.Args[2].(*ssa.Function); ok {
+		cb = fn
+	}
+	if cb == nil {
+		return false, "callback is not a function literal"
+	}
+	why := ""
+	for _, r := range graph(p, cb).Returns() {
+		var check func(v ssa.Value, d int)
+		check = func(v ssa.Value, d int) {
+			if ph, ok := v.(*ssa.Phi); ok && d < 4 {
+				for _, e := range ph.Edges {
+					check(e, d+1)
+				}
+				return
+			}
+			mi, ok := v.(*ssa.MakeInterface)
+			if !ok || !types.Identical(mi.X.Type(), asserted) {
+				why = "callback returns " + v.Type().String() + " at " + p.Pos(r.Pos()) + ", asserted " + asserted.String()
+			}
+		}
+		check(ssax.ReturnValues(r)[0], 0)
+	}
+	return why == "", why
+}
